@@ -103,6 +103,28 @@ func VerifC13_Dispatch() {
 	rt.Reach("dispatch-end")
 }
 
+// write requests that lack the payload separator: one error reply, which
+// carries the request's operation ID (the ID was readable)
+func VerifC13_WriteWithoutPayload() {
+	rt.SchedYieldOnly(true)
+	api := c13Setup()
+	method := []string{"create", "update", "insert"}[rt.Choice("method", 3)]
+	key := rt.StrN("key", 0, 3)
+	for i := 0; i < len(key); i++ {
+		rt.Assume(key[i] != '|')
+		rt.Assume(key[i] >= 0x20)
+		rt.Assume(key[i] < 0x7f)
+	}
+	api.Handle(c13Msg("op9", method, key))
+	rt.Quiesce(time.Second)
+	rt.Assert(len(c13Replies) == 1, "nopayload/exactly-one-reply")
+	if len(c13Replies) == 1 {
+		rt.Assert(c13Kind(c13Replies[0]) == "error", "nopayload/error-reply")
+		rt.Assert(bytes.HasPrefix(c13Replies[0], []byte("op9|")), "nopayload/reply-carries-opid")
+	}
+	rt.Reach("nopayload-end")
+}
+
 // ---- O2: request/response operations answer exactly once ----
 
 func c13Msg(op, method, arg string) []byte { return []byte(op + "|" + method + "|" + arg) }
